@@ -856,7 +856,7 @@ def _r24f(chk, repo) -> None:
                 if not good:
                     ok, why = False, f"__reduce__ passes {norm(a)} in the position of constructor parameter '{p}'"
                     break
-        chk.require(ok and bool(rets), "R24f", red, f"{c.name}: {why or 'no return in __reduce__'}", detail=f"{c.name}.__reduce__ round-trips constructor inputs")
+        chk.require(ok and bool(rets) and bool(arg_tuples), "R24f", red, f"{c.name}: {why or 'no return in __reduce__'}", detail=f"{c.name}.__reduce__ round-trips constructor inputs")
         chk.sample({"rule": "R24f", "class": c.name, "params": params})
     chk.count("R24f.reduce_methods", n)
     chk.floor("R24f.reduce_methods", 3)
